@@ -116,6 +116,25 @@ Proof.
 Qed.
 Print Assumptions stream_roundtrip.
 
+(* one frame: [frame_encode_reader_sync] composed with the record layer through [reader_read] *)
+Corollary frame_roundtrip : forall sizes fuel t fl recs ws0 r0 trunc kr k,
+  rd_tree r0 = t -> rd_left r0 = 0 ->
+  rd_src r0 = SrcFrames [(fl, snd (frame_encode t fl ws0 recs))] trunc ->
+  carry ws0 (rd_st r0) -> acc_empty ws0 -> outside_default ws0 t ->
+  NoDup (tree_cols t) -> fc_ok t ->
+  stream_ok sizes fuel t [(fl, recs)] ws0 (rd_rec r0) (rd_td r0) = true ->
+  (1 < kr)%nat -> (length recs < k)%nat ->
+  read_all sizes fuel kr k r0 =
+  (recs, chain_values t recs (rd_rec r0) (if flag_dicts fl then PM.empty _ else rd_td r0),
+   Some (if trunc then RdErr true EEof else RdEnd)).
+Proof.
+  intros sizes fuel t fl recs ws0 r0 trunc kr k Ht Hl Hsrc Hca Hae Hod Hnd Hfc Hok Hkr Hk.
+  rewrite (stream_roundtrip sizes fuel t [(fl, recs)] ws0 r0 trunc kr k); try assumption.
+  - cbn [map snd concat stream_values fst]. cbv zeta. rewrite !app_nil_r. reflexivity.
+  - cbn [map snd concat]. rewrite app_nil_r. exact Hk.
+Qed.
+Print Assumptions frame_roundtrip.
+
 (* an uncompressed byte stream (after the fixed header and the var header frame) *)
 Theorem stream_roundtrip_bytes : forall sizes fuel t frames ws0 r0 kr k,
   rd_tree r0 = t -> rd_left r0 = 0 ->
